@@ -120,7 +120,9 @@ func initAllowed(modPath string) func(string) bool {
 	}
 }
 
-var stubRe = regexp.MustCompile(`(?m)^//verif:stub\s+(\S+)\s*=\s*(\S+)\s*$`)
+// "//verif:stub callee = func" applies to every harness of the package,
+// "//verif:stub(H_a,H_b) callee = func" only to the named harnesses.
+var stubRe = regexp.MustCompile(`(?m)^//verif:stub(?:\(([\w,]+)\))?\s+(\S+)\s*=\s*(\S+)\s*$`)
 
 func loadProgram(cfg *RunConfig) (*Program, *ssa.Function, []string, error) {
 	overlay := map[string][]byte{}
@@ -138,7 +140,18 @@ func loadProgram(cfg *RunConfig) (*Program, *ssa.Function, []string, error) {
 		}
 		overlay[filepath.Join(cfg.RepoDir, cfg.Pkg, filepath.Base(f))] = b
 		for _, m := range stubRe.FindAllStringSubmatch(string(b), -1) {
-			stubDecls = append(stubDecls, [2]string{m[1], m[2]})
+			if m[1] != "" {
+				applies := false
+				for _, hn := range strings.Split(m[1], ",") {
+					if hn == cfg.Harness {
+						applies = true
+					}
+				}
+				if !applies {
+					continue
+				}
+			}
+			stubDecls = append(stubDecls, [2]string{m[2], m[3]})
 		}
 		if pkgName == "" {
 			if m := regexp.MustCompile(`(?m)^package\s+(\w+)`).FindStringSubmatch(string(b)); m != nil {
